@@ -179,6 +179,13 @@ impl SizeHeader {
             return Err(SizeError::InvalidEsizeWidth(h.esize_bytes));
         }
 
+        // A version 2 header stores total_size in 5 bytes
+        if let Self::V2(h) = self
+            && h.total_size >= 1 << 40
+        {
+            return Err(SizeError::TotalSizeTooLarge(h.total_size));
+        }
+
         Ok(())
     }
 }
